@@ -28,6 +28,10 @@ fn main() {
         trace::main(&args[2..]);
         return;
     }
+    if mode == "loader-trace" {
+        loader::trace_main(&args[2..]);
+        return;
+    }
     let opts = runner::parse_opts(&args[2..]);
     let workdir = std::env::var("VH_WORK").unwrap_or_else(|_| "/verif/.work".to_string());
     match mode.as_str() {
